@@ -618,6 +618,7 @@ func TestVerifC04Sideband(t *testing.T) {
 		Position string `json:"position"` // first, middle, last line of the stderr stream
 		FinalEOL bool   `json:"finalEOL"`
 		Marking  string `json:"marking"`
+		Colons   bool   `json:"colons"` // the feedback text has ": " of its own, as several of the reference server's messages do
 	}
 	var rows []row
 	for _, n := range []int{1, 3} {
@@ -626,7 +627,7 @@ func TestVerifC04Sideband(t *testing.T) {
 				for _, pos := range []string{"first", "middle", "last"} {
 					for _, eol := range []bool{true, false} {
 						for _, marking := range []string{"none", "failing", "flaky"} {
-							rows = append(rows, row{n, target, lines, pos, eol, marking})
+							rows = append(rows, row{n, target, lines, pos, eol, marking, false}, row{n, target, lines, pos, eol, marking, true})
 						}
 					}
 				}
@@ -643,6 +644,10 @@ func TestVerifC04Sideband(t *testing.T) {
 		}
 		var fb []string
 		for l := 0; l < r.Lines; l++ {
+			if r.Colons {
+				fb = append(fb, fmt.Sprintf("%s: invalid value for \"grpc-timeout\" header: \"%dx\": unknown unit", vfC11Name(r.Target), l+1))
+				continue
+			}
 			fb = append(fb, fmt.Sprintf("%s: expected HTTP version %d; instead got 2", vfC11Name(r.Target), l+1))
 		}
 		noise := []string{"2024/01/01 12:00:00 http: TLS handshake error: EOF", "plain log line"}
@@ -705,7 +710,11 @@ func TestVerifC04Sideband(t *testing.T) {
 				viol = verifkit.Violf("sideband-unnamed", "%q drew feedback and is marked %s but no INFO line names it (%+v)\noutput:\n%s", name, r.Marking, r, out)
 			default:
 				for l := 0; l < r.Lines; l++ {
-					if !strings.Contains(out, fmt.Sprintf("expected HTTP version %d; instead got 2", l+1)) {
+					wantLine := fmt.Sprintf("expected HTTP version %d; instead got 2", l+1)
+					if r.Colons {
+						wantLine = fmt.Sprintf("invalid value for \"grpc-timeout\" header: \"%dx\": unknown unit", l+1)
+					}
+					if !strings.Contains(out, wantLine) {
 						viol = verifkit.Violf("sideband-line-lost", "feedback line %d of %d for %q is not in the report (%+v)\noutput:\n%s", l+1, r.Lines, name, r, out)
 					}
 				}
@@ -716,10 +725,115 @@ func TestVerifC04Sideband(t *testing.T) {
 				}
 			}
 		}
-		en.Rec.Observe(r, []string{"position:" + r.Position, fmt.Sprintf("finalEOL:%v", r.FinalEOL), "marking:" + r.Marking}, !r.FinalEOL || r.Lines > 1)
+		en.Rec.Observe(r, []string{"position:" + r.Position, fmt.Sprintf("finalEOL:%v", r.FinalEOL), "marking:" + r.Marking, fmt.Sprintf("colons-in-message:%v", r.Colons)}, !r.FinalEOL || r.Lines > 1 || r.Colons)
 		if viol != nil && en.Fail(r, viol) {
 			break
 		}
 	}
 	en.Done(true)
+}
+
+// TestVerifC04ServerExit: the server under test goes away (exit status 0, or killed) after k of 3 cases have been
+// handed to the client. The cases that could not be run any more count against success whatever their marking,
+// and each is named FAILED in the report. Uses the C11 fakes ("with": ["C11"]).
+func TestVerifC04ServerExit(t *testing.T) {
+	en := verifkit.NewEnum(t, "C04ServerExit")
+	type row struct {
+		After   int    `json:"after"`   // the server is gone after that many sends (of 3)
+		Clean   bool   `json:"clean"`   // exit status 0
+		Marking string `json:"marking"` // of the cases that were not sent any more
+		RefSrv  bool   `json:"refServer"`
+	}
+	var rows []row
+	for _, after := range []int{1, 2} {
+		for _, clean := range []bool{true, false} {
+			for _, marking := range []string{"none", "failing", "flaky"} {
+				for _, ref := range []bool{false, true} {
+					rows = append(rows, row{after, clean, marking, ref})
+				}
+			}
+		}
+	}
+	const n = 3
+	for _, r := range rows {
+		var testCases []*conformancev1.TestCase
+		expected := map[string]*conformancev1.ClientResponseResult{}
+		for i := 0; i < n; i++ {
+			exp := &conformancev1.ClientResponseResult{Payloads: []*conformancev1.ConformancePayload{{Data: []byte(fmt.Sprintf("payload-%d", i))}}}
+			testCases = append(testCases, &conformancev1.TestCase{Request: &conformancev1.ClientCompatRequest{TestName: vfC11Name(i)}, ExpectedResponse: exp})
+			expected[vfC11Name(i)] = exp
+		}
+		resp, _ := proto.Marshal(&conformancev1.ServerCompatResponse{Host: "127.0.0.1", Port: 1})
+		var frame bytes.Buffer
+		var l [4]byte
+		binary.BigEndian.PutUint32(l[:], uint32(len(resp)))
+		frame.Write(l[:])
+		frame.Write(resp)
+		proc := &vfFakeProc{done: make(chan struct{})}
+		if !r.Clean {
+			proc.exitErr = errors.New("signal: killed")
+		}
+		starter := processStarter(func(ctx context.Context, _ bool) (*process, error) {
+			return &process{processController: proc, stdin: &vfFakeStdin{}, stdout: bytes.NewReader(frame.Bytes()), stderr: strings.NewReader("")}, nil
+		})
+		var unsent []string
+		for i := r.After; i < n; i++ {
+			unsent = append(unsent, vfC11Name(i))
+		}
+		var failing, flaky []string
+		switch r.Marking {
+		case "failing":
+			failing = unsent
+		case "flaky":
+			flaky = unsent
+		}
+		results := newResults(n, vfTrieOrEmpty(failing), vfTrieOrEmpty(flaky), nil)
+		client := &vfFakeClient{c: vfC11Case{N: n, Delivery: "sync", ServerFault: "die", FaultAt: r.After}, expected: expected, proc: proc}
+		done := make(chan struct{})
+		go func() {
+			defer close(done)
+			runTestCasesForServer(context.Background(), false, r.RefSrv, serverInstance{}, testCases, nil, nil, starter, &vfC11Printer{}, &vfC11Printer{}, results, client, nil, false)
+		}()
+		var viol error
+		select {
+		case <-done:
+		case <-time.After(30 * time.Second):
+			viol = verifkit.Violf("server-exit-hang", "batch did not end: %+v", r)
+		}
+		if viol == nil {
+			client.mu.Lock()
+			sent := append([]string{}, client.sends...)
+			client.mu.Unlock()
+			printer := &vfC11PrinterLite{}
+			ok := results.report(printer)
+			out := strings.Join(printer.lines, "\n")
+			switch {
+			case ok:
+				viol = verifkit.Violf("server-exit-success", "report() = true although the server was gone after %d of %d cases (%+v; handed to the client: %v)\noutput:\n%s", r.After, n, r, sent, out)
+			default:
+				for _, name := range unsent {
+					if vfContainsStr(sent, name) {
+						continue // (handed over all the same: then its own verdict stands; success is still impossible above)
+					}
+					if !strings.Contains(out, "FAILED: "+name+":") {
+						viol = verifkit.Violf("server-exit-unnamed", "%q could not be run (server gone after %d sends) but no FAILED line names it (%+v)\noutput:\n%s", name, r.After, r, out)
+					}
+				}
+			}
+		}
+		en.Rec.Observe(r, []string{fmt.Sprintf("after:%d", r.After), fmt.Sprintf("clean-exit:%v", r.Clean), "marking:" + r.Marking}, true)
+		if viol != nil && en.Fail(r, viol) {
+			break
+		}
+	}
+	en.Done(true)
+}
+
+func vfContainsStr(l []string, s string) bool {
+	for _, x := range l {
+		if x == s {
+			return true
+		}
+	}
+	return false
 }
